@@ -8,7 +8,7 @@ Three legs on every run (no hooks; everything is observed through compiled progr
                    gcc 12 (-std=c11), the independent implementation of C11 6.7.2 and the psABI   -> spec bug, reported as disagreement
   code  <-> gcc  : the property itself                                                           -> corr.violations
 """
-import os, json, itertools, hashlib
+import os, json, itertools, hashlib, copy
 from concurrent.futures import ThreadPoolExecutor
 from .framework import *
 
@@ -26,7 +26,7 @@ TRUSTED_BASE = [
     'compared with `drv_c08 layout` on generated declarations (this leg is testing)',
     'specification lean/ChibiVerif/Spec/LayoutSpec.lean (my reading of C11 6.7.2p2, psABI figure 3.1 and 3.1.2, gcc semantics of packed/aligned), '
     'validated against gcc 12.2 on the same generated declarations on every run',
-    'C int modelled as unbounded Int: aggregates of 256 MiB or more (bit count >= 2^31) are outside the theorems',
+    'C int modelled as unbounded Int: aggregates of 256 MiB or more (bit count >= 2^31) are outside the theorems (known finding C08-huge-struct-overflow, replayed each run)',
     'gcc 12 + glibc + the host CPU running the printed programs',
 ]
 ASSUMPTIONS = ['bit-field base types are the integer types and _Bool with width <= width of the type (1 for _Bool); enum-typed bit-fields, '
@@ -155,6 +155,17 @@ def regions_of(t):
             r.add('C08-packed-union-bitfield')
     return r
 
+def clone(t):
+    """structural copy without sharing (copy.deepcopy would keep two references to one node shared)"""
+    k = t[0]
+    if k == 'a':
+        return ('a', t[1], clone(t[2]))
+    if k == 'f':
+        return ('f', clone(t[1]))
+    if k in 'su':
+        return (k, t[1], t[2], [(aa, w, nm, clone(mt)) for (aa, w, nm, mt) in t[3]])
+    return tuple(t)
+
 class Namer:
     def __init__(self):
         self.n = 0
@@ -269,6 +280,7 @@ def make_program(cases, rng):
     body = []
     info = []
     for i, t in enumerate(cases):
+        t = clone(t)              # every aggregate node gets its own identity (member names are kept per node)
         namer = Namer()
         names = {}
         decl = render(t, f'T{i}', rng, namer, names)
@@ -291,7 +303,7 @@ def make_program(cases, rng):
                     if o[3] <= 31:   # chibicc cannot assemble stores to bit-fields of 32..63 bits (a C04 matter), so the store image is for narrow fields
                         body.append(f'    memset(&u, 0, sizeof u); u.v.{o[1]} = {"1" if o[4] else "-1"}; bits({i}, {kk}, &u, sizeof u);')
             body.append('  }')
-        info.append((names, decl))
+        info.append((names, decl, t))
     src.append('int main(void) {')
     src += body
     src.append('  return 0;\n}')
@@ -435,12 +447,12 @@ def check_batch(ctx, corr, cases, tag, count_tag, pre=None):
     model, spec = driver_layouts(ctx, cases)
     rc_, rg_ = collect(outc), collect(outg)
     for i, t in enumerate(cases):
-        names, decl = info[i]
+        names, decl, tc = info[i]
         corr.evaluations += 1
         corr.count(count_tag)
         key = ser(t)
-        em = expected(t, names, model, MODEL_GET)
-        es = expected(t, names, spec, SPEC_GET)
+        em = expected(tc, names, model, MODEL_GET)
+        es = expected(tc, names, spec, SPEC_GET)
         ic, ig = rc_.get(i), rg_.get(i)
         if t[0] in 'su' and (len(t[3]) >= 2 or any(m[1] is not None or m[0] for m in t[3]) or t[1] or t[2]):
             corr.nontrivial.add(hashlib.sha1(key.encode()).hexdigest())
@@ -648,7 +660,7 @@ def decl_probe(ctx, seqs, tag):
     body = []
     for i, s in enumerate(seqs):
         src.append(f'typedef {" ".join(s)} V{i};')
-        if sorted(s) == ['void']:
+        if [k for k in s if k not in ('const', 'volatile')] == ['void']:
             body.append(f'  printf("V {i} void\\n");')
         else:
             body.append(f'  printf("V {i} %ld %ld %d %d\\n", (long)sizeof(V{i}), (long)_Alignof(V{i}), (V{i})-1 > (V{i})0, (V{i})0.5 != (V{i})0);')
@@ -1020,9 +1032,32 @@ def replay(ctx, corr, path):
     corr.extra['replay'] = 'replay file carries no declaration'
 
 MANIFEST = {
-    'level_text': 'filled in below',
-    'level_note': '',
-    'technique': 'Lean 4: whole-table decide over the regenerated declspec switch (prefix-closed automaton argument), induction over member '
-                 'lists with a running bit-cursor invariant; translator-regenerated tables; differential execution chibicc / gcc 12 / model / spec',
+    'level_text': 'Lean 4 theorems over a model of parse.c declspec / struct_decl / union_decl / struct_members and type.c whose tables '
+                  '(counter enum, keyword ladder, switch (counter), primitive Type literals, align_to/align_down) are regenerated from /repo '
+                  'on every run. Proved for ALL inputs: (C08_specifiers) every permutation of a keyword sequence is decoded alike and every '
+                  'C11 6.7.2p2 multiset gets its psABI type; (C08_specifiers_reject_partial) every other non-empty sequence without a repeated '
+                  'signed/unsigned is rejected, so the 2-bit counters never wrap into a valid code; (C08_prims) scalar sizes/alignments = psABI '
+                  'figure 3.1; (C08_derived) arrays n*elem, pointers 8/8; (C08_layout_partial, C08_layout_unpacked) for every member list with '
+                  'arbitrary member sizes/alignments, bit-fields of any width incl. zero-width and unnamed, _Alignas, aligned(n), struct_decl and '
+                  'union_decl return exactly the offsets, bit offsets, size and alignment of an independently written psABI 3.1.2 allocation '
+                  'rule and never divide by zero; (C08_types_partial) the same for whole nested type descriptions (anonymous members, arrays, '
+                  'pointers, flexible last member, any depth); (C08_allocation_rule, C08_struct_invariants) the rule means what the psABI says: '
+                  'least aligned offset, bit-field inside one storage unit, members ordered and disjoint, size the least multiple of the alignment '
+                  'covering the members. PARTIAL: layout theorems exclude three regions inside __attribute__((packed)) that are known findings '
+                  '(packed struct with a non-zero-width bit-field, packed aggregate with member _Alignas, packed union with a named bit-field), and '
+                  'aggregates of 256 MiB or more (int overflow, known finding); full statements are kept and refuted by kernel-checked witnesses. '
+                  'Tie on every run: the model is executed against programs compiled by the snapshot compiler (sizeof/_Alignof/offsetof and the '
+                  'bits each bit-field reads and writes) on thousands of generated declarations; the specification is validated against gcc 12 on '
+                  'the same declarations; chibicc is compared with gcc directly.',
+    'level_note': 'Trusted: Lean kernel (propext, Classical.choice, Quot.sound; audited each run); tools/extract/declspec.py (regex over exact '
+                  'shapes, fails on any other); the hand model of the loops (tied by differential execution, which is testing); Spec/LayoutSpec.lean '
+                  '(my reading of C11 6.7.2p2 and psABI 3.1.2, validated against gcc 12 each run); C int as unbounded Int. Not modelled: the '
+                  'parser around declspec/declarator (qualifiers, typedef names, _Atomic, typeof, enum sizes beyond int), struct tags/redefinition, '
+                  'member attributes other than _Alignas; those are exercised only through the compiled programs. Rejection of repeated '
+                  'signed/unsigned and of the empty specifier list is NOT proved (chibicc accepts them; treated as latitude).',
+    'technique': 'Lean 4: whole-table decide over the regenerated declspec switch lifted by induction over permutations (finite-automaton argument); '
+                 'induction over member lists with a running bit-cursor / (size, alignment) invariant against an independent allocation-rule '
+                 'specification; mutual structural induction over type descriptions; translator-regenerated tables; differential execution '
+                 'chibicc / gcc 12 / model / spec',
     'design_ref': 'DESIGN.md section 6, C08',
 }
